@@ -9,4 +9,4 @@ Separate Extraction
   Fast.log2_64 Fast.log2_32 Fast.sq_seg Fast.sq_idx Fast.sq_cnt Fast.cn_seg Fast.cn_idx Fast.cn_cnt
   SegModel.step SegModel.capacity SegModel.empty SegModel.len SegModel.wstep SegModel.wempty SegModel.stA SegModel.stB
   Gen_ArrSqrt.GetCapacity Gen_ArrSqrt.Reserve Gen_ArrSqrt.ShrinkTo Gen_ArrSqrt.ShrinkFit Gen_ArrSqrt.Clear Gen_ArrSqrt.AddBackCrt
-  Gen_ArrSqrt.SetCountCrt Gen_ArrSqrt.pvDecCount.
+  Gen_ArrSqrt.SetCountCrt Gen_ArrSqrt.pvDecCount Gen_ArrSqrt.RemoveBack Gen_ArrSqrt.AddBackNogrowCrt Gen_ArrSqrt.pvGetItem.
